@@ -81,3 +81,31 @@ Proof.
   cbn [filter_map]. rewrite IH. unfold sign_payload_opt_with, sign_payload_opt.
   rewrite (payload_ipld_with_eq (memo_did (did_table dids)) t true (memo_did_eq dids)). reflexivity.
 Qed.
+
+(* ------------------------------------------------------------------ *)
+(* with the guard of ucan/lib.go (checkSignable): (id, algorithm name, token, the string that was
+   signed / verified, or None when Issue / VerifySignature returned the encodeSignaturePayload error) *)
+
+Definition check_input (l : list (N * bstr * utoken * option bstr)) : list (N * N) :=
+  filter_map (fun c => match c with (id, alg, t, exp) =>
+    if obeq (signing_input alg t) exp then None else Some (id, 1) end) l.
+
+Definition signing_input_with (ds : bstr -> bstr) (alg : bstr) (t : utoken) : option bstr :=
+  if signable_with ds alg t then sign_payload_opt_with ds alg t else None.
+
+Lemma signable_with_eq ds alg t : (forall b, ds b = did_string b) -> signable_with ds alg t = signable alg t.
+Proof. intros H. unfold signable, signable_with. rewrite !H. reflexivity. Qed.
+
+Definition check_input_memo (dids : list bstr) (l : list (N * bstr * utoken * option bstr)) : list (N * N) :=
+  let tbl := did_table dids in
+  filter_map (fun c => match c with (id, alg, t, exp) =>
+    if obeq (signing_input_with (memo_did tbl) alg t) exp then None else Some (id, 1) end) l.
+
+Theorem check_input_memo_eq dids l : check_input_memo dids l = check_input l.
+Proof.
+  unfold check_input_memo, check_input. cbv zeta.
+  induction l as [|[[[id alg] t] exp] l IH]; [reflexivity|].
+  cbn [filter_map]. rewrite IH. unfold signing_input_with, signing_input, sign_payload_opt_with, sign_payload_opt.
+  rewrite (signable_with_eq _ alg t (memo_did_eq dids)).
+  rewrite (payload_ipld_with_eq (memo_did (did_table dids)) t true (memo_did_eq dids)). reflexivity.
+Qed.
